@@ -198,16 +198,54 @@ class _CloneShim(object):
 
 
 # ---------------------------------------------------------------- solo reference
+TWIN_KINDS = ('Angle', 'Epoch', 'Interpolation', 'CurveFitting', 'Earth', 'Ellipsoid')
+
+
+def _twin(o, ns):
+    """An object rebuilt from o's documented repr ("a valid expression that could be
+    used to recreate the object") plus its public tolerance; None unless the twin is
+    equal to o under every public observer the snapshots use."""
+    from .snap import snap
+    from .pool import kind_of
+    k = kind_of(o)
+    if k not in TWIN_KINDS:
+        return None
+    try:
+        t = eval(repr(o), dict(ns))
+        if k in ('Angle', 'Interpolation'):
+            t.set_tolerance(o.get_tolerance())
+        if type(t) is type(o) and snap(t) == snap(o):
+            return t
+    except Exception:
+        return None
+    return None
+
+
+def _call(e, recv, args, kwargs):
+    from . import ops
+    from .snap import snap
+    try:
+        res = ops.invoke(e.kind, e.target, recv, args, kwargs)
+        o = ('ok', snap(res))
+    except Exception as ex:
+        o = ('exc', snap(ex))
+    post = snap(recv) if e.effect.startswith('mutator') else None
+    return (o[0], o[1], post)
+
+
 def exec_solo(jobs, cfg, order_seed):
     """jobs: list of (op_id, name, clones).  Each call runs alone on clones, clock
-    frozen at another instant, same zone.  Returns {op_id: (outcome, res, recv_post)}."""
+    frozen at another instant, same zone.  Returns {op_id: (outcome, res, recv_post, twin)}
+    where twin is the same triple obtained with every top-level Angle/Epoch/Interpolation/
+    CurveFitting/Earth/Ellipsoid argument replaced by an observationally equal object
+    rebuilt from its repr (None when no argument could be twinned)."""
     from . import ops
     from .catalogue import ENTRIES
-    from .snap import snap
     clock.set_zone(clock.zone_name(cfg['zone_min']))
     C = clock.CLOCK
     C.now = cfg['solo_time']
     C.frozen = True
+    ns = dict(ops.CLASSES)
     idx = list(range(len(jobs)))
     random.Random(order_seed).shuffle(idx)
     out = {}
@@ -215,13 +253,27 @@ def exec_solo(jobs, cfg, order_seed):
         op_id, name, blob = jobs[i]
         e = ENTRIES[name]
         recv, args, kwargs = clone_loads(blob)
-        try:
-            res = ops.invoke(e.kind, e.target, recv, args, kwargs)
-            o = ('ok', snap(res))
-        except Exception as ex:
-            o = ('exc', snap(ex))
-        post = snap(recv) if e.effect.startswith('mutator') else None
-        out[op_id] = (o[0], o[1], post)
+        base = _call(e, recv, args, kwargs)
+        twin = None
+        if not os.environ.get('VERIF_NO_TWIN'):
+            recv, args, kwargs = clone_loads(blob)
+            n = 0
+            memo = {}
+
+            def tw(o):
+                if id(o) in memo:
+                    return memo[id(o)]
+                t = _twin(o, ns)
+                memo[id(o)] = o if t is None else t
+                return memo[id(o)]
+            r2 = tw(recv) if recv is not None else None
+            a2 = [tw(a) for a in args]
+            k2 = {k: tw(v) for k, v in kwargs.items()}
+            n = sum(1 for x, y in zip([recv] + list(args) + list(kwargs.values()),
+                                       [r2] + a2 + list(k2.values())) if x is not y)
+            if n:
+                twin = _call(e, r2, a2, k2)
+        out[op_id] = (base[0], base[1], base[2], twin)
     return out
 
 
@@ -244,6 +296,9 @@ def compare(sres, solo):
         elif rec['recv_post'] != s[2]:
             v.append({'oracle': 'O2.recv', 'op': rec['id'], 'name': rec['name'],
                       'detail': {'sim': rec['recv_post'], 'solo': s[2]}})
+        elif s[3] is not None and s[3] != (s[0], s[1], s[2]):
+            v.append({'oracle': 'O2.twin', 'op': rec['id'], 'name': rec['name'],
+                      'detail': {'on_clones': (s[0], s[1], s[2]), 'on_repr_twins': s[3]}})
     return v, nonfinite
 
 
@@ -265,9 +320,12 @@ def run_plan(source, timeout=120.0):
         a = alone.get(v['op'])
         s = solo.get(v['op'])
         v['detail']['solo_alone_agrees_with_batch'] = (a == s)
+        if v['oracle'] == 'O2.twin' and a is not None and (a[3] is None or a[3] == a[:3]):
+            v['oracle'] = 'O2.twin-unconfirmed'
     sres['violations'] = list(sres['violations']) + v2
     sres['counters']['solo_calls'] = len(jobs)
     sres['counters']['solo_nonfinite'] = nonfinite
+    sres['counters']['solo_twin_calls'] = sum(1 for x in solo.values() if x[3] is not None)
     sres['counters']['solo_rejects'] = sum(1 for x in solo.values() if x[0] == 'exc')
     names = dict((j[0], j[1]) for j in jobs)
     # soft findings: a solo call rejected a generated (conservatively in-domain) input with an
